@@ -21,8 +21,7 @@ impl<A: MaybeNan, D: Dimension> ArrayN<A, D> {
         ensures
             // the elements are visited exactly once each (in the order ndarray's fold happens to use); the accumulator passes
             // unchanged over a missing element and through f, with the not-NaN value, over every other one
-            exists|items: Seq<&'a A>, accs: Seq<B>| #![auto] (&*self).fold_items_ok(items) && accs.len() == items.len() + 1 && accs[0] == init && accs[items.len() as int] == r
-                && forall|k: int| 0 <= k < items.len() ==> skip_step::<A, B, F>(f, accs[k], *items[k], accs[k + 1]), // [C14]
+            skipnan_trace::<A, D, B, F>(self, f, init, r), // [C14]
 //@at entry
         let ghost mut accs: Seq<B> = seq![init]; let ghost f0 = f;
 //@loop 0
@@ -96,6 +95,59 @@ impl<A: MaybeNan, D: Dimension> ArrayN<A, D> {
 //@at after_loop 0
         proof { assert((&*self).fold_items_ok(__fos)); assert(forall|k: int| 0 <= k < __fos.len() ==> visit_step::<A, F>(f0, *#[trigger] __fos[k])); }
 //@end
+
+//@extract file=src/quantile/mod.rs impl=QuantileExt:ArrayBase fn=min_skipnan id=min_skipnan tags=C14 body_tags=C14
+//@sig
+    fn min_skipnan<'a>(&'a self) -> (r: &'a A)
+    where
+        A: MaybeNan,
+        A::NotNan: Ord + 'a,
+//@spec
+        requires lawful_ord::<A::NotNan>(),
+        ensures
+            // nothing left (empty or every element missing): the missing value
+            (forall|k: int| 0 <= k < self@.len() ==> (#[trigger] self@[k]).is_nan_spec()) ==> r.is_nan_spec(), // [C14]
+            // otherwise: a not-missing element of the array that is <= every not-missing element
+            (exists|k: int| 0 <= k < self@.len() && !(#[trigger] self@[k]).is_nan_spec()) ==> (!r.is_nan_spec()
+                && (exists|k: int| 0 <= k < self@.len() && !(#[trigger] self@[k]).is_nan_spec() && self@[k].not_nan_spec() == r.not_nan_spec())
+                && forall|k: int| 0 <= k < self@.len() && !(#[trigger] self@[k]).is_nan_spec() ==> dle(false, r.not_nan_spec(), self@[k].not_nan_spec())), // [C14]
+//@rename_call min verif_min
+//@closure 0
+|v: &'a A| -> (o: Option<&'a A::NotNan>) ensures (*v).is_nan_spec() <==> o is None, o matches Some(x) ==> *x == (*v).not_nan_spec()
+//@closure 1
+|acc: Option<&'a A::NotNan>, elem: &'a A::NotNan| -> (o: Option<&'a A::NotNan>) ensures o matches Some(x) && ext_rel(false, opt_val(acc), *elem, *x)
+//@at after_let first 0
+        proof { assert(first matches Some(x) ==> !self@[0].is_nan_spec() && self@[0].not_nan_spec() == *x); }
+//@name_call fold_skipnan 0
+            proof { lemma_ext_from_trace::<A, D, _>(false, self, __clg, first, __t); }
+//@end
+
+//@extract file=src/quantile/mod.rs impl=QuantileExt:ArrayBase fn=max_skipnan id=max_skipnan tags=C14 body_tags=C14
+//@sig
+    fn max_skipnan<'a>(&'a self) -> (r: &'a A)
+    where
+        A: MaybeNan,
+        A::NotNan: Ord + 'a,
+//@spec
+        requires lawful_ord::<A::NotNan>(),
+        ensures
+            // nothing left (empty or every element missing): the missing value
+            (forall|k: int| 0 <= k < self@.len() ==> (#[trigger] self@[k]).is_nan_spec()) ==> r.is_nan_spec(), // [C14]
+            // otherwise: a not-missing element of the array that is >= every not-missing element
+            (exists|k: int| 0 <= k < self@.len() && !(#[trigger] self@[k]).is_nan_spec()) ==> (!r.is_nan_spec()
+                && (exists|k: int| 0 <= k < self@.len() && !(#[trigger] self@[k]).is_nan_spec() && self@[k].not_nan_spec() == r.not_nan_spec())
+                && forall|k: int| 0 <= k < self@.len() && !(#[trigger] self@[k]).is_nan_spec() ==> dle(true, r.not_nan_spec(), self@[k].not_nan_spec())), // [C14]
+//@rename_call max verif_max
+//@closure 0
+|v: &'a A| -> (o: Option<&'a A::NotNan>) ensures (*v).is_nan_spec() <==> o is None, o matches Some(x) ==> *x == (*v).not_nan_spec()
+//@closure 1
+|acc: Option<&'a A::NotNan>, elem: &'a A::NotNan| -> (o: Option<&'a A::NotNan>) ensures o matches Some(x) && ext_rel(true, opt_val(acc), *elem, *x)
+//@at after_let first 0
+        proof { assert(first matches Some(x) ==> !self@[0].is_nan_spec() && self@[0].not_nan_spec() == *x); }
+//@name_call fold_skipnan 0
+            proof { lemma_ext_from_trace::<A, D, _>(true, self, __clg, first, __t); }
+//@end
+
 }
 
 } // verus!
